@@ -3,6 +3,7 @@ package vc
 import (
 	"fmt"
 	"go/types"
+	"strings"
 
 	"golang.org/x/tools/go/ssa"
 )
@@ -76,7 +77,6 @@ func (fr *frame) assertInvariants(st *PState, b *ssa.BasicBlock, ord int, invs [
 
 // havocLoop forgets everything the loop body may assign.
 func (fr *frame) havocLoop(st *PState, b *ssa.BasicBlock, ord int) {
-	ex := fr.ex
 	for _, ins := range b.Instrs {
 		phi, ok := ins.(*ssa.Phi)
 		if !ok {
@@ -98,6 +98,8 @@ func (fr *frame) havocLoop(st *PState, b *ssa.BasicBlock, ord int) {
 		}
 	}
 	impure := false
+	traceMod := false
+	var views []*ViewVal
 	for blk := range fr.loopBody[b] {
 		for _, ins := range blk.Instrs {
 			switch ins := ins.(type) {
@@ -129,30 +131,29 @@ func (fr *frame) havocLoop(st *PState, b *ssa.BasicBlock, ord int) {
 					}
 					continue
 				}
-				if f := c.StaticCallee(); f != nil {
-					q := f.String()
-					if _, ok := libModels[q]; ok && !libWrites(q) {
-						continue
-					}
-					if isEffectFree(q) {
-						continue
-					}
-					if ct, ok := ex.CS.ByFunc[q]; ok && len(ct.Modifies) == 0 && ct.Flags["inline"] == "" {
-						continue
-					}
+				eff := fr.callEffects(st, c, 0)
+				for _, v := range eff.views {
+					views = append(views, v)
 				}
-				if c.IsInvoke() {
-					m := c.Method.Name()
-					if m == "Valid" || m == "Key" || m == "Value" || m == "Close" || m == "Error" || m == "String" || m == "Get" || m == "Has" {
-						continue
-					}
-					if m == "Next" {
-						continue // iterator index cells are havoced below
-					}
+				if eff.unknown {
+					impure = true
 				}
-				impure = true
+				if eff.trace {
+					traceMod = true
+				}
 			}
 		}
+	}
+	// store writes through views that exist before the loop: only those (cell, store) pairs change
+	for _, v := range views {
+		state := Select(st.kv, v.Cell, SState)
+		st.kv = st.Name("kv", Store(st.kv, v.Cell, Store(state, v.Store, st.Fresh("store_loop", SStore))))
+	}
+	if traceMod && !impure {
+		n := st.Fresh("traceN_loop", SInt)
+		st.Assume(App(SBool, ">=", n, st.traceN))
+		st.traceN = n
+		st.trace = st.Fresh("trace_loop", "(Array Int Int)")
 	}
 	// iterator / range positions advance inside loops
 	for _, x := range st.env {
@@ -245,5 +246,124 @@ func (fr *frame) havocByAddrExpr(st *PState, addr ssa.Value, et types.Type) {
 	default:
 		name, h := st.Heap(et)
 		st.SetHeap(name, st.Fresh(name+"_loop", h.Sort))
+	}
+}
+
+type callEff struct {
+	views   []*ViewVal // stores written through views known before the loop
+	unknown bool       // may write anything
+	trace   bool
+}
+
+var pureInvokes = map[string]bool{"Valid": true, "Key": true, "Value": true, "Close": true, "Error": true, "String": true, "Get": true, "Has": true,
+	"Next": true, "MustMarshal": true, "MustUnmarshal": true, "Marshal": true, "Unmarshal": true, "Logger": true, "Debug": true, "Info": true, "Domain": true}
+
+// callEffects over-approximates what a call inside a loop may modify.
+func (fr *frame) callEffects(st *PState, c *ssa.CallCommon, depth int) callEff {
+	ex := fr.ex
+	var eff callEff
+	if c.IsInvoke() {
+		m := c.Method.Name()
+		if pureInvokes[m] {
+			return eff
+		}
+		if m == "Set" || m == "Delete" {
+			if v, ok := fr.valOrNil(st, c.Value).(*ViewVal); ok {
+				eff.views = append(eff.views, v)
+				return eff
+			}
+		}
+		eff.unknown = true
+		return eff
+	}
+	f := c.StaticCallee()
+	if f == nil {
+		// closure / func value call
+		if cv, ok := fr.valOrNil(st, c.Value).(*ClosureVal); ok && depth < 3 {
+			return fr.bodyEffects(st, cv.Fn, depth+1)
+		}
+		eff.unknown = true
+		return eff
+	}
+	q := f.String()
+	if strings.HasPrefix(q, "(github.com/cosmos/cosmos-sdk/store/prefix.Store).") {
+		if strings.HasSuffix(q, ".Set") || strings.HasSuffix(q, ".Delete") {
+			if v, ok := fr.valOrNil(st, c.Args[0]).(*ViewVal); ok {
+				eff.views = append(eff.views, v)
+				return eff
+			}
+			eff.unknown = true
+		}
+		return eff
+	}
+	if _, ok := libModels[q]; ok {
+		return eff
+	}
+	if isEffectFree(q) {
+		return eff
+	}
+	if ct, ok := ex.CS.ByFunc[q]; ok && ct.Flags["inline"] == "" {
+		for _, m := range ct.Modifies {
+			m = strings.TrimSpace(m)
+			if m == "trace" {
+				eff.trace = true
+			} else if m != "" {
+				eff.unknown = true
+			}
+		}
+		return eff
+	}
+	if mc, ok := c.Value.(*ssa.MakeClosure); ok {
+		f = mc.Fn.(*ssa.Function)
+	}
+	if f.Blocks != nil && depth < 3 {
+		return fr.bodyEffects(st, f, depth+1)
+	}
+	eff.unknown = true
+	return eff
+}
+
+// bodyEffects scans a callee body: pure unless it stores through non-local pointers or calls something effectful.
+func (fr *frame) bodyEffects(st *PState, f *ssa.Function, depth int) callEff {
+	var eff callEff
+	for _, b := range f.Blocks {
+		for _, ins := range b.Instrs {
+			switch ins := ins.(type) {
+			case *ssa.Store:
+				if _, isAlloc := rootAlloc(ins.Addr); !isAlloc {
+					eff.unknown = true
+				}
+			case *ssa.MapUpdate, *ssa.Send, *ssa.Go:
+				eff.unknown = true
+			case ssa.CallInstruction:
+				c := ins.Common()
+				if _, isB := c.Value.(*ssa.Builtin); isB {
+					continue
+				}
+				e := fr.callEffects(st, c, depth)
+				if len(e.views) > 0 {
+					// views created inside the callee are not resolvable here
+					eff.unknown = true
+				}
+				eff.unknown = eff.unknown || e.unknown
+				eff.trace = eff.trace || e.trace
+			}
+		}
+	}
+	return eff
+}
+
+func rootAlloc(v ssa.Value) (*ssa.Alloc, bool) {
+	for {
+		switch x := v.(type) {
+		case *ssa.Alloc:
+			return x, true
+		case *ssa.FieldAddr:
+			v = x.X
+		case *ssa.IndexAddr:
+			v = x.X
+		default:
+			return nil, false
+		}
 	}
 }
